@@ -39,6 +39,8 @@ struct Run<'a, 'b> {
     evicted_with_write_in_flight: BTreeSet<Vec<u8>>,
     prev_index: BTreeSet<Vec<u8>>,
     expected_removed: BTreeSet<Vec<u8>>,
+    /// keys that ANOTHER store of this process (another identity) has held before this case started
+    pool: Vec<Vec<u8>>,
 }
 
 impl Run<'_, '_> {
@@ -57,6 +59,24 @@ impl Run<'_, '_> {
         self.held.keys().map(|k| (k.clone(), self.d(k))).max_by_key(|(_, d)| *d)
     }
     fn fresh_key(&mut self, want_closer_than: Option<D32>, closer: bool) -> Vec<u8> {
+        // first choice: a key the other store of this process has already handled
+        for i in 0..self.pool.len() {
+            let k = self.pool[i].clone();
+            if self.values.contains_key(&k) {
+                continue;
+            }
+            let fits = match want_closer_than {
+                None => true,
+                Some(b) => {
+                    let d = self.d(&k);
+                    (closer && d < b) || (!closer && d > b)
+                }
+            };
+            if fits {
+                self.pool.swap_remove(i);
+                return k;
+            }
+        }
         for _ in 0..4000 {
             let k = gen::bytes(&mut self.cx.rng, 32);
             if self.values.contains_key(&k) {
@@ -531,6 +551,30 @@ impl Check for C10 {
             large_cleanup_case(cx);
             return;
         }
+        // one case in three: another node's store lives in this process first (several nodes of one process, a node
+        // re-created under a new identity) and holds the keys this case is going to use; nothing of it may show here
+        let mut pool: Vec<Vec<u8>> = vec![];
+        if cx.rng.gen_bool(0.33) {
+            let root2 = scratch_dir("c10n");
+            let mut sim2 = Sim::new(cx.rng.gen(), false);
+            sim2.policy = Policy::Fifo;
+            sim2.set_gates_controlled(false);
+            sim2.add_node(gen::ed_keypair(&mut cx.rng), root2.clone(), false);
+            for i in 0..160u64 {
+                let k = gen::bytes(&mut cx.rng, 32);
+                let value = value_with_id(&mut cx.rng, RecordKind::Chunk, 1_000_000 + i, 10);
+                {
+                    let _g = sim2.rt.enter();
+                    let _ = sim2.nodes[0].drv.verif_handle_local_cmd(LocalSwarmCmd::PutLocalRecord { record: Record { key: RecordKey::from(k.clone()), value, publisher: None, expires: None } });
+                }
+                pool.push(k);
+            }
+            let mut d = || true;
+            let _ = sim2.settle(&mut d);
+            drop(sim2);
+            let _ = std::fs::remove_dir_all(&root2);
+            cx.count("cases-after-another-store-of-the-process-held-the-keys");
+        }
         let root = scratch_dir("c10");
         let mut sim = Sim::new(cx.rng.gen(), false);
         sim.policy = Policy::Random;
@@ -543,7 +587,7 @@ impl Check for C10 {
         sim.nodes[0].drv.verif_store_mut().expect("store").verif_set_limits(cap, cache);
         let ev0 = cx.report.counters.get("evictions").copied().unwrap_or(0);
         let rf0 = cx.report.counters.get("refusals").copied().unwrap_or(0);
-        let mut r = Run { cx, sim, me, cap, cache, held: BTreeMap::new(), inflight: vec![], values: BTreeMap::new(), payments: 0, range: None, hist: vec![], next_id: 0, overshoot_seen: false, credit: 0, evicted_with_write_in_flight: BTreeSet::new(), prev_index: BTreeSet::new(), expected_removed: BTreeSet::new() };
+        let mut r = Run { cx, sim, me, cap, cache, held: BTreeMap::new(), inflight: vec![], values: BTreeMap::new(), payments: 0, range: None, hist: vec![], next_id: 0, overshoot_seen: false, credit: 0, evicted_with_write_in_flight: BTreeSet::new(), prev_index: BTreeSet::new(), expected_removed: BTreeSet::new(), pool };
         let nsteps = r.cx.rng.gen_range(30..=150);
         let (mut n_evict0, mut bursts) = (0u64, 0u64);
         let _ = &mut n_evict0;
